@@ -221,6 +221,7 @@ func (w *World) yield(pc uintptr) {
 // ---------------------------------------------------------------- storage node
 
 type SimNode struct {
+	CloseStuck bool // Stop gave up waiting for Server.Close (the old incarnation still holds its files)
 	W       *World
 	Name    string
 	EP      *Endpoint
@@ -285,6 +286,8 @@ func (n *SimNode) Stop() {
 			// a shutdown that never ends is a deadlock inside the node (not one of the checked
 			// properties): recorded with the blocked stacks instead of hanging the run
 			n.W.R.Count("diag_node_close_stuck", 1)
+			n.CloseStuck = true
+			n.W.R.Abandon(fmt.Sprintf("node %s never finished shutting down (deadlock inside the node, see the log); what follows in this run cannot be judged", n.EP))
 			buf := make([]byte, 1<<20)
 			buf = buf[:runtime.Stack(buf, true)]
 			var keep []string
